@@ -45,8 +45,8 @@ class ThermochemRawData(ThermochemBase):
         """
         (self.Ts, self.ND_Cps) = list(zip(*sorted(
             zip(Ts, ND_Cps), key=lambda T_ND_Cps: T_ND_Cps[0])))
-        self.min_T = Ts[0]
-        self.max_T = Ts[-1]
+        self.min_T = self.Ts[0]
+        self.max_T = self.Ts[-1]
 
         if range is None:
             range = (self.min_T, self.max_T)
